@@ -52,6 +52,7 @@ def gtokOut (s : Bytes) : String :=
 def rejectClass (s : Bytes) : String :=
   if noLeadingSlash s then "no-leading-slash"
   else if illegalChar s then "illegal-char"
+  else if badPercent s then "illegal-char(percent-encoding)"
   else if badBraces s then "unbalanced-or-nested-variable"
   else if badFieldPath s then "bad-field-path"
   else if emptySegment s then "empty-segment"
